@@ -1,0 +1,62 @@
+//go:build verif
+
+package vgirpc
+
+// Verification hooks (build tag "verif") for the browser OAuth PKCE login:
+// thin exported wrappers around the session-cookie codec and the redirect
+// validators. Add-only; nothing here is compiled into normal builds.
+
+const (
+	// VerifC27SessionCookieName is the name of the signed PKCE session cookie.
+	VerifC27SessionCookieName = sessionCookieName
+	// VerifC27AuthCookieName is the name of the bearer-token cookie.
+	VerifC27AuthCookieName = authCookieName
+	// VerifC27SessionMaxAge is the session cookie lifetime in seconds.
+	VerifC27SessionMaxAge = sessionMaxAge
+)
+
+// VerifC27Pack calls packOAuthCookie.
+func VerifC27Pack(verifier, state, originalURL, returnTo string, sessionKey []byte, createdAt int64) string {
+	return packOAuthCookie(verifier, state, originalURL, returnTo, sessionKey, createdAt)
+}
+
+// VerifC27Unpack calls unpackOAuthCookie.
+func VerifC27Unpack(cookieValue string, sessionKey []byte, maxAge int) (verifier, state, originalURL, returnTo string, err error) {
+	return unpackOAuthCookie(cookieValue, sessionKey, maxAge)
+}
+
+// VerifC27ValidateOriginalURL calls validateOriginalURL.
+func VerifC27ValidateOriginalURL(u, prefix string) string {
+	return validateOriginalURL(u, prefix)
+}
+
+// VerifC27ValidateReturnTo calls validateReturnTo with the given allowlist.
+func VerifC27ValidateReturnTo(u string, allowedOrigins []string) string {
+	m := make(map[string]bool, len(allowedOrigins))
+	for _, o := range allowedOrigins {
+		m[o] = true
+	}
+	return validateReturnTo(u, m)
+}
+
+// VerifC27SessionKey returns the PKCE session key (nil when PKCE is off).
+func (h *HttpServer) VerifC27SessionKey() []byte {
+	if h.pkce == nil {
+		return nil
+	}
+	return append([]byte(nil), h.pkce.sessionKey...)
+}
+
+// VerifC27AllowedReturnOrigins returns the configured return-origin allowlist.
+func (h *HttpServer) VerifC27AllowedReturnOrigins() []string {
+	if h.pkce == nil {
+		return nil
+	}
+	out := make([]string, 0, len(h.pkce.allowedReturnOrigins))
+	for o, ok := range h.pkce.allowedReturnOrigins {
+		if ok {
+			out = append(out, o)
+		}
+	}
+	return out
+}
